@@ -116,6 +116,23 @@ theorem diagM_similarity_exact (m : M6 ℝ) (d : Eig12 ℝ) (r : DiagRun m d)
     (h0 : r.eps0 = 0) (h1 : r.eps1 = 0) (h2 : r.eps2 = 0) : formM d = m ∧ IsEigSys d m :=
   ⟨(r.isEigSys h0 h1 h2).2, r.isEigSys h0 h1 h2⟩
 
+/-- which entries these are: `eps1`, `eps2` are what is left in `e[0]`, `e[1]` when the routine returns (rows 1, 2 do
+    not touch `e[0]`, row 2 does not touch `e[1]`); `eps0` is 0 or the `e[1]` of the first rotation, which the first
+    inner step of row 0 overwrites -/
+theorem diagM_dropped_entries (m : M6 ℝ) (d : Eig12 ℝ) (r : DiagRun m d) :
+    r.eps1 = r.st3.e0 ∧ r.eps2 = r.st3.e1 ∧ (r.eps0 = 0 ∨ r.eps0 = (rot0 m).e1) := by
+  refine ⟨r.eps1_eq, r.eps2_eq, ?_⟩
+  unfold DiagRun.eps0 rowEps
+  split_ifs
+  · right; rfl
+  · left; rfl
+
+/-- `e_final = 0 → Q diag(d) Qᵀ = m`: if the sub-diagonal entries left in `e[0]`, `e[1]` at return are exactly 0 (and
+    the e[1] possibly dropped when row 0 chose its block was 0), the decomposition is exact -/
+theorem diagM_similarity_efinal (m : M6 ℝ) (d : Eig12 ℝ) (r : DiagRun m d)
+    (h0 : r.eps0 = 0) (he0 : r.st3.e0 = 0) (he1 : r.st3.e1 = 0) : formM d = m :=
+  (r.isEigSys h0 (r.eps1_eq.trans he0) (r.eps2_eq.trans he1)).2
+
 /-- `ZeroResidual m d` (= `diagM m` returned `d` and nothing non-zero was dropped) discharges the `IsEigSys`
     hypothesis of the theorems of `Props/C16.lean` -/
 theorem zeroResidual_isEigSys {m : M6 ℝ} {d : Eig12 ℝ} (h : ZeroResidual m d) : diagM m = .ok d ∧ IsEigSys d m := by
@@ -181,6 +198,12 @@ theorem sqrt_zeroResidual (m s is : M6 ℝ) (d : Eig12 ℝ) (z : ZeroResidual m 
     s.toMat * s.toMat = m.toMat ∧ s.toMat * is.toMat = 1 ∧ is.toMat * s.toMat = 1 :=
   (C16.sqrtM_spec m s is d (zeroResidual_isEigSys z).1 (zeroResidual_isEigSys z).2 h).2
 
+/-- the hypotheses of the intersect / bound theorems of `Props/C16.lean` (`InnerExact`), from the runs themselves -/
+theorem innerExact_of_zeroResidual {m1 m2 s is : M6 ℝ} {d1 d2 : Eig12 ℝ} (z1 : ZeroResidual m1 d1)
+    (hs : sqrtM m1 = .ok (s, is)) (z2 : ZeroResidual (multM0M1M0 is m2) d2) : C16.InnerExact m1 m2 s is d1 d2 :=
+  ⟨(zeroResidual_isEigSys z1).1, (zeroResidual_isEigSys z1).2, hs, (zeroResidual_isEigSys z2).1,
+    (zeroResidual_isEigSys z2).2⟩
+
 /-- the class of inputs on which exactness is proved outright: tridiagonal form with e[1] = 0 (every 2-D embedded
     matrix `m13 = m23 = 0`, and e.g. every `m23 = 0, m22 = m33`) and an e[0] that does not pass the test at the start -/
 theorem diagM_exact_block2 (m : M6 ℝ) (he1 : (rot0 m).e1 = 0) (hs : (tstUpd 0 (rot0 m)).isSmall 0 = false) :
@@ -226,6 +249,12 @@ example : logM (⟨Real.exp (-1), 0, 0, Real.exp 0, 0, Real.exp 7⟩ : M6 ℝ) =
 example : expM (⟨Real.log 2, 0, 0, Real.log 3, 0, Real.log 5⟩ : M6 ℝ) = .ok ⟨2, 0, 0, 3, 0, 5⟩ :=
   exp_log_zeroResidual ⟨2, 0, 0, 3, 0, 5⟩ _ _ _ (zeroResidual_diag 2 3 5) ⟨by norm_num, by norm_num, by norm_num⟩
     (C16.logM_diag 2 3 5) (zeroResidual_diag (Real.log 2) (Real.log 3) (Real.log 5))
+
+/-- `innerExact_of_zeroResidual`: A = diag(4, 9, 1), B = diag(1, 36, 1/4) -/
+example : C16.InnerExact (⟨4, 0, 0, 9, 0, 1⟩ : M6 ℝ) ⟨1, 0, 0, 36, 0, 1 / 4⟩ ⟨2, 0, 0, 3, 0, 1⟩ ⟨1 / 2, 0, 0, 1 / 3, 0, 1⟩
+    ⟨4, 9, 1, 1, 0, 0, 0, 1, 0, 0, 0, 1⟩ ⟨1 / 2 * 1 * (1 / 2), 1 / 3 * 36 * (1 / 3), 1 * (1 / 4) * 1, 1, 0, 0, 0, 1, 0, 0, 0, 1⟩ :=
+  innerExact_of_zeroResidual (zeroResidual_diag 4 9 1) C16.sqrtM_diag491
+    (by rw [multM0M1M0_diag]; exact zeroResidual_diag _ _ _)
 
 /-- `ql_sweep_similarity` / `ql_rotation_similarity`: the hypotheses `e[0] ≠ 0`, `e[1] ≠ 0` of the two-rotation sweep
     are met, e.g. by the tridiagonal state of [[2,1,0],[1,3,1],[0,1,4]] -/
